@@ -902,7 +902,12 @@ class Ev:
                 spec = None
                 if v.format_spec is not None:
                     spec = self.ev(v.format_spec)
-                parts.append(("fmt", self.ev(v.value), v.conversion, spec))
+                val = self.ev(v.value)
+                va = val.as_atom()
+                if spec is None and v.conversion == -1 and va and va[0] == "str":
+                    parts.append(("lit", va[1]))
+                    continue
+                parts.append(("fmt", val, v.conversion, spec))
         # constant-only f-strings fold to a string
         if all(p[0] == "lit" for p in parts):
             return P.atom(("str", "".join(p[1] for p in parts)))
@@ -925,6 +930,17 @@ class Ev:
         return P.atom(("lambda", len(names), body))
 
     def _comp(self, n, elts):
+        # a list/tuple comprehension over a short literal is unrolled into a tuple of its items
+        if isinstance(n, (ast.ListComp, ast.GeneratorExp)) and len(n.generators) == 1 and not n.generators[0].ifs and self.unroll:
+            lit = self._literal_iter(n.generators[0].iter)
+            if lit is not None:
+                saved = dict(self.env)
+                items = []
+                for v in lit:
+                    self.assign(n.generators[0].target, v, n)
+                    items.append(self.ev(elts[0]))
+                self.env = saved
+                return P.atom(("tuple", tuple(items)))
         saved = dict(self.env)
         gens = []
         for g in n.generators:
